@@ -22,6 +22,7 @@ type LoopSpec struct {
 	Invariants []Clause
 	Decreases  *Clause
 	Uses       []Clause
+	Cut        bool
 	Unroll     int // >0: unroll instead of cutting (complete only if the bound is provably not exceeded)
 }
 
@@ -81,6 +82,10 @@ type Axiom struct {
 	Where  string
 }
 
+type NonNilDecl struct {
+	Pkg, Kind, What, Where string // Kind: elems | values | field
+}
+
 type GhostField struct {
 	Pkg, Struct, Field, Type string
 }
@@ -94,6 +99,8 @@ type Contracts struct {
 	Defaults map[string]*FuncContract // "parser.Parser" -> default contract for all methods
 	Files    []string
 	ModSets  map[string]string // "pkg.NAME" -> item list
+	NonNil   []NonNilDecl
+	GlobalInvs []Clause // Label = package
 }
 
 var reFunc = regexp.MustCompile(`^func\s+(?:\(\s*(\w+)\s+\*?(\w+)\s*\)\s*)?(\w+)\s*$`)
@@ -241,6 +248,21 @@ func (cs *Contracts) loadFile(repo, file string) error {
 			cs.Axioms[ax.Name] = ax
 			cur = nil
 			appendTo = func(s string) { ax.Body += " " + s }
+			continue
+		case "globalinv":
+			cs.GlobalInvs = append(cs.GlobalInvs, Clause{Label: pkg, Expr: strings.TrimSpace(strings.TrimPrefix(l, "globalinv")), Where: where})
+			cur = nil
+			n := len(cs.GlobalInvs) - 1
+			appendTo = func(s string) { cs.GlobalInvs[n].Expr += " " + s }
+			continue
+		case "nonnil":
+			f := strings.Fields(l)
+			if len(f) < 3 {
+				return fmt.Errorf("%s: bad nonnil %q", where, l)
+			}
+			cs.NonNil = append(cs.NonNil, NonNilDecl{Pkg: pkg, Kind: f[1], What: strings.Join(f[2:], " "), Where: where})
+			cur = nil
+			appendTo = nil
 			continue
 		case "modset":
 			parts := strings.SplitN(strings.TrimSpace(strings.TrimPrefix(l, "modset")), "=", 2)
